@@ -52,6 +52,12 @@ func comparePreReleaseSuffix(shorter string, longer string) int {
 	if digitsOrEmpty.MatchString(shorter) && digitsOrEmpty.MatchString(longer) {
 		shorter = strings.TrimLeft(shorter, "0")
 		longer = strings.TrimLeft(longer, "0")
+		// numbers are compared numerically, so number with more digits is greater (e.g. 2 < 11)
+		if len(shorter) < len(longer) {
+			return 1
+		} else if len(shorter) > len(longer) {
+			return -1
+		}
 	}
 	return -strings.Compare(shorter, longer)
 }
